@@ -3,6 +3,11 @@
 // lands in the source, and a reference interpreter giving the document a program denotes.
 package tgen
 
+import (
+	"strconv"
+	"strings"
+)
+
 // Args are the argument values every generated template takes:
 //
 //	(s1, s2 string, b1, b2 bool, n int, xs []string, c templ.Component)
@@ -207,4 +212,57 @@ func TicksInConditionalClass(f *File) map[string]bool {
 		walk(f.Templates[i].Body)
 	}
 	return out
+}
+
+// LoopDepth is the deepest nesting of for statements along any path through the file's templates
+// starting at template 0, following calls to sibling templates and the blocks passed to them.
+func LoopDepth(f *File) int {
+	memo := map[int]int{}
+	var tpl func(i int) int
+	var list func(ns []Node) int
+	list = func(ns []Node) int {
+		d := 0
+		for i := range ns {
+			n := &ns[i]
+			sub := list(n.Kids)
+			if x := list(n.Else); x > sub {
+				sub = x
+			}
+			for j := range n.ElseIfs {
+				if x := list(n.ElseIfs[j].Kids); x > sub {
+					sub = x
+				}
+			}
+			for j := range n.Cases {
+				if x := list(n.Cases[j].Kids); x > sub {
+					sub = x
+				}
+			}
+			switch {
+			case n.Kind == "for":
+				sub++
+			case n.Kind == "call" && strings.HasPrefix(n.Callee, "sub"):
+				if idx, err := strconv.Atoi(strings.TrimPrefix(n.Callee, "sub")); err == nil && idx < len(f.Templates) {
+					// the callee's loops may surround the block's loops ({ children... } in a loop)
+					sub += tpl(idx)
+				}
+			}
+			if sub > d {
+				d = sub
+			}
+		}
+		return d
+	}
+	tpl = func(i int) int {
+		if v, ok := memo[i]; ok {
+			return v
+		}
+		memo[i] = 0 // calls only go to later templates; guards against surprises
+		memo[i] = list(f.Templates[i].Body)
+		return memo[i]
+	}
+	if len(f.Templates) == 0 {
+		return 0
+	}
+	return tpl(0)
 }
